@@ -248,13 +248,39 @@ impl Prop for Contradictions {
     }
 }
 
+// ------------------------------------------------------------ contradictions against an inherited table
+
+/// A derived block whose indices or size contradict the positions of the table it inherits.
+pub struct InheritedTable;
+impl Prop for InheritedTable {
+    type Case = crate::checks::c06::VerdictCase;
+    crate::prog_shrink!();
+    fn name(&self) -> String {
+        "C04/inherited-table".into()
+    }
+    fn rule(&self) -> String {
+        "inheritance chains (the C06 generator) whose last level restates the inherited table faithfully, or with its last function missing under a restated size (an unnamed slot where the base has a function), or with its last function moved one slot further by an #[index]. Oracle: an index or size that contradicts the positions of the inherited table is an error; the faithful block is accepted. Every case is non-trivial".into()
+    }
+    fn gen(&self, t: &mut Tape) -> Self::Case {
+        let force = *t.pick(&[7u64, 11, 11, 0]);
+        crate::checks::c06::gen_verdict_case_with(t, Some(force))
+    }
+    fn judge(&self, c: &Self::Case) -> Outcome {
+        crate::checks::c06::Verdict_.judge(c)
+    }
+    fn show(&self, c: &Self::Case) -> Value {
+        crate::checks::c06::Verdict_.show(c)
+    }
+}
+
 pub fn props() -> Vec<Box<dyn DynProp>> {
-    vec![Box::new(Contradictions), Box::new(TableLayout), Box::new(Dispatch)]
+    vec![Box::new(Contradictions), Box::new(TableLayout), Box::new(Dispatch), Box::new(InheritedTable)]
 }
 
 pub fn run(ctx: &mut Ctx) {
     let q = ctx.quick();
     ctx.run(&Contradictions, &Params::new(if q { 20_000 } else { 400_000 }, 10, 60));
+    ctx.run(&InheritedTable, &Params::new(if q { 10_000 } else { 200_000 }, 30, 300));
     ctx.run(&TableLayout, &Params::new(if q { 3000 } else { 80_000 }, 100, 2000).shrink(100));
     ctx.run(&Dispatch, &Params::new(if q { 1200 } else { 40_000 }, 200, 3000).shrink(60));
 }
